@@ -98,7 +98,7 @@ func init() {
 	}
 
 	// ---- barriers (C06) and pause/stop (C09) ---------------------------------------------------------------
-	for _, kp := range []kindPair{{Plain, Fifo}, {Plain, Prio}, {ResW, Fifo}, {Plain, Pers}} {
+	for _, kp := range []kindPair{{Plain, Fifo}, {Plain, Prio}, {ResW, Fifo}, {Plain, Pers}, {Plain, PersPrio}, {ErrW, Prio}} {
 		kp := kp
 		for _, c := range []int{1, 2} {
 			c := c
@@ -132,9 +132,27 @@ func init() {
 				h.End()
 			},
 		})
+		// WaitUntilFinished while the queue is purged / the last pending job is cancelled: it must still return
+		Register(&Scenario{
+			Name:  name("wuf-purge/%s", kp),
+			Props: []string{"C06", "C10"},
+			Mode:  "NB", Quick: 2, Thorough: 3, Shards: 8,
+			Body: func(h *H) {
+				h.HangProp = "C06"
+				h.CrashProp = "C10"
+				w := h.NewWorker(kp.W, 1)
+				q := w.Bind(kp.Q, nil)
+				q.Add(0, AddOpt{})
+				q.Add(1, AddOpt{Prio: 1})
+				q.Add(2, AddOpt{Prio: 2})
+				go func() { w.WaitUntilFinished() }()
+				go func() { q.Purge() }()
+				h.End()
+			},
+		})
 		Register(&Scenario{
 			Name:  name("pausewait/%s", kp),
-			Props: []string{"C09", "C06", "C01", "C04"},
+			Props: []string{"C09", "C06", "C01", "C04", "C17"},
 			Mode:  "PB", Quick: 1, Thorough: 2, Shards: 8,
 			Body: func(h *H) {
 				h.HangProp = "C06"
@@ -188,7 +206,7 @@ func init() {
 		// plain Pause: only already dispatched jobs (fewer than the limit) may still start
 		Register(&Scenario{
 			Name:  name("pause/%s", kp),
-			Props: []string{"C09", "C01", "C04"},
+			Props: []string{"C09", "C01", "C04", "C17"},
 			Mode:  "PB", Quick: 1, Thorough: 2, Shards: 8,
 			Body: func(h *H) {
 				w := h.NewWorker(kp.W, 1)
@@ -277,6 +295,38 @@ func init() {
 			},
 		})
 	}
+	// TunePool down trimming idle workers kept by a minimum-idle ratio; then Stop: nothing may be left behind
+	Register(&Scenario{
+		Name:  "tune-shrink",
+		Props: []string{"C18", "C02", "C01"},
+		Mode:  "NB", Quick: 1, Thorough: 2, Shards: 8,
+		Body: func(h *H) {
+			h.Shape = Gated
+			w := h.NewWorker(Plain, 4, varmq.WithMinIdleWorkerRatio(50))
+			q := w.Bind(Fifo, nil)
+			for i := 0; i < 4; i++ {
+				q.Add(i, AddOpt{})
+			}
+			h.Quiesce(false)
+			h.OpenAll(0, 1, 2, 3)
+			h.Quiesce(true)
+			w.TunePool(2)
+			h.Quiesce(true)
+			// (how many idle workers a ratio keeps without an expiry is not part of the statement: two workers
+			// finishing together may both stay; what must hold is checked generally: at least one idle worker
+			// at rest, the new limit under load, and nothing left after Stop)
+			for i := 4; i < 7; i++ {
+				q.Add(i, AddOpt{})
+			}
+			h.Quiesce(false)
+			h.OpenAll(4, 5, 6)
+			h.Quiesce(true)
+			w.Stop()
+			h.Quiesce(true)
+			h.checkStoppedLeak(w)
+			h.End()
+		},
+	})
 	// TunePool down racing the dispatcher's wake-up: jobs dispatched after the return obey the new limit
 	for _, kp := range []kindPair{{Plain, Fifo}, {ErrW, Prio}} {
 		kp := kp
